@@ -26,6 +26,7 @@ type Features struct {
 	PAs       float64 // single result given through As
 	PCb       float64
 	PObj      float64 // parameters gathered into objects
+	PNest     float64 // part of a parameter object moved into a nested parameter object
 	PGroupDec float64 // decorator decorates a group
 	MaxParams int
 	Opts      []cat.Opts
@@ -95,7 +96,37 @@ func (ft Features) params(r *rand.Rand, max int, avoid map[string]bool) []cat.Pa
 		}
 		ps[i].O = run
 	}
+	nestObjects(r, ps, ft.PNest)
 	return ps
+}
+
+// nestObjects moves, with probability p per object, a contiguous part of the object's fields
+// into a nested parameter object (and part of that one level deeper).
+func nestObjects(r *rand.Rand, ps []cat.Param, p float64) {
+	for i := 0; i < len(ps); {
+		if ps[i].O == 0 {
+			i++
+			continue
+		}
+		j := i
+		for j < len(ps) && ps[j].O == ps[i].O {
+			j++
+		}
+		if pick(r, p) {
+			a := i + r.Intn(j-i)
+			b := a + 1 + r.Intn(j-a)
+			for x := a; x < b; x++ {
+				ps[x].P = []int{1}
+			}
+			if b-a >= 1 && pick(r, 0.3) {
+				c := a + r.Intn(b-a)
+				for x := c; x < b; x++ {
+					ps[x].P = []int{1, 1}
+				}
+			}
+		}
+		i = j
+	}
 }
 
 // Random generates one valid catalog.
@@ -331,12 +362,12 @@ func RandomFamily(seed int64, n int, ft Features) []*cat.Catalog {
 // Presets are named feature sets.
 var Presets = map[string]Features{
 	"small": {Scopes: 2, Ctors: 3, Decs: 1, Invs: 1, Types: 3, PNamed: 0.15, POpt: 0.25, PGroup: 0.2,
-		PSoft: 0.3, PFlat: 0.3, PExport: 0.3, PMulti: 0.3, PAs: 0.15, PCb: 0.3, PObj: 0.4, PGroupDec: 0.3, MaxParams: 2},
+		PSoft: 0.3, PFlat: 0.3, PExport: 0.3, PMulti: 0.3, PAs: 0.15, PCb: 0.3, PObj: 0.4, PNest: 0.3, PGroupDec: 0.3, MaxParams: 2},
 }
 
 func init() {
 	Presets["medium"] = Features{Scopes: 3, Ctors: 6, Decs: 2, Invs: 3, Types: 4, PNamed: 0.15, POpt: 0.25, PGroup: 0.25,
-		PSoft: 0.3, PFlat: 0.3, PExport: 0.3, PMulti: 0.3, PAs: 0.15, PCb: 0.4, PObj: 0.4, PGroupDec: 0.3, MaxParams: 3}
+		PSoft: 0.3, PFlat: 0.3, PExport: 0.3, PMulti: 0.3, PAs: 0.15, PCb: 0.4, PObj: 0.4, PNest: 0.3, PGroupDec: 0.3, MaxParams: 3}
 	Presets["large"] = Features{Scopes: 4, Ctors: 12, Decs: 4, Invs: 4, Types: 6, PNamed: 0.2, POpt: 0.25, PGroup: 0.25,
-		PSoft: 0.3, PFlat: 0.3, PExport: 0.3, PMulti: 0.35, PAs: 0.15, PCb: 0.4, PObj: 0.4, PGroupDec: 0.3, MaxParams: 3}
+		PSoft: 0.3, PFlat: 0.3, PExport: 0.3, PMulti: 0.35, PAs: 0.15, PCb: 0.4, PObj: 0.4, PNest: 0.3, PGroupDec: 0.3, MaxParams: 3}
 }
